@@ -41,6 +41,7 @@ class Ctx:
         base = os.environ.get("VERIF_SCRATCH", "/var/tmp")
         self.scratch = Path(tempfile.mkdtemp(prefix=f"octave-verif.{prop}.", dir=base))
         self.model_runs = []  # TLCResult summaries
+        self.details = {}     # i -> full payload printed by the trace specification for a rejected record
         self.trace_records = 0
         self.trace_runs = 0
         self.notes = []
@@ -130,6 +131,7 @@ class Ctx:
             out = {}
             for p in res.payload_lines():
                 out[int(p["i"])] = sorted(p["fails"])
+                self.details[int(p["i"])] = p
             if res.depth and res.depth - 1 != n:
                 raise Machinery(f"trace shard {path} not fully consumed: depth {res.depth} vs {n} records")
             return out, n, res
